@@ -262,6 +262,10 @@ CORPUS = [
      "remotes": [act(2, 2), {"status": "unreachable", "endpoints": [400], "via": "update"}, {"status": "left", "endpoints": [7], "via": "add"}]},
     {"id": "corpus-inactive-2", "thr": bits(0.2), "rate": bits(0.5), "min_conns": 1, "open": 10, "local": [10],
      "remotes": [act(10), {"status": "unreachable", "endpoints": [0], "via": "update"}, {"status": "left", "endpoints": [0], "via": "update"}]},
+    # a shed rate of 0 is a configuration, not "unset": ceil(0 x average) = 0, "at least one" makes it ONE connection per step,
+    # however large the average (seeded change C19-7 replaced 0 by a default rate, which only differs above an average of 200)
+    {"id": "corpus-rate0-large", "thr": bits(0.2), "rate": bits(0.0), "min_conns": 1, "open": 520, "local": [300, 220], "remotes": [act(300)]},
+    {"id": "corpus-rate-small-large", "thr": bits(0.1), "rate": bits(0.005), "min_conns": 50, "open": 450, "local": [450], "remotes": [act(200), act(250)]},
     # integer average 0: exactly one closed
     {"id": "corpus-avg0", "thr": bits(0.2), "rate": bits(0.5), "min_conns": 1, "open": 1, "local": [1], "remotes": [act()]},
     {"id": "corpus-avg0-3", "thr": bits(2.0), "rate": bits(0.0), "min_conns": 0, "open": 3, "local": [3], "remotes": [act(), act(), act()]},
